@@ -47,7 +47,8 @@ def run(ck):
                 if rc != '-EEAV_IPADDR_INVALID': w6.append(f'literal rejected before the bracket search with rc = {rc}')
                 lim = [e for e in p.events if e[0] == 'cond' and e[1].startswith(f'(({E} - {brs})')]
                 if lim:
-                    # the shortest accepted literal must be at least "[1.2.3.4]" = 9 bytes
+                    # the shortest accepted literal must be at least "[1.2.3.4]" = 9 bytes; the test that rejects is the last one on the path
+                    lim = lim[-1:]
                     m = re.fullmatch(re.escape(f'(({E} - {brs})') + r' (<=|<|>|>=) (\d+)\)', lim[0][1])
                     if m:
                         op, K = m.group(1), int(m.group(2))
